@@ -820,14 +820,25 @@ func init() {
 					jobs = append(jobs, j)
 				}
 			}
+			// the same walk after an earlier Readline call on the same shell (the undo
+			// histories are kept per history position across calls)
+			for _, prev := range []string{"typed", "hist", "abort", "undo", "walkback"} {
+				for s := 1; s <= maxS-1; s++ {
+					j := mkJob(".ZZ_C07_Undo", shellSetup, "s", itoa(s), "variant", "walk", "prev", prev)
+					j.Stubs = paintStubs
+					j.Reach = []string{"steps-done", "first-call-returned"}
+					jobs = append(jobs, j)
+				}
+			}
 			return jobs
 		},
 		Assumptions: append([]string{
+			"jobs with prev=...: an earlier Readline call on the same shell (two characters typed, then Enter / previous-history + Enter / Ctrl-C / undo + Enter / up, down, Enter; one history source holding one entry) precedes the checked call",
 			"emacs mode; s symbolic steps over {insert a, insert b, insert space, backspace, kill-line, yank, kill-word, beginning-of-line, end-of-line, undo (walk variant)} typed one key per read; then a fixed tail of undos/redos",
 			"G = the buffers shown at the input waits; initial content = the empty line",
 		}, stepAssumptions[1:]...),
 		Stubs:  []string{"tty ioctls", "stdin = zzverif.Script", "stdout discarded"},
-		Bounds: map[string]string{"quick": "s <= 3 symbolic steps (then up to s+2 undos / 2 undos + 2 redos)", "thorough": "s <= 4"},
+		Bounds: map[string]string{"quick": "s <= 3 symbolic steps (then up to s+2 undos / 2 undos + 2 redos); after an earlier call: s <= 2", "thorough": "s <= 4; after an earlier call: s <= 3"},
 		Rule:   "one state per completed symbolic path (a path = one command sequence)",
 		IgnoreKinds: []string{"panic", "hang", "deadlock", "spin"},
 	}
